@@ -8,6 +8,7 @@ package c01
 // second: an instance's behaviour follows from the model and its own data.
 
 import (
+	"encoding/json"
 	"fmt"
 	"testing"
 
@@ -15,6 +16,7 @@ import (
 	"pgregory.net/rapid"
 
 	"verif/harness/drive"
+	"verif/harness/gen"
 	"verif/harness/model"
 	"verif/harness/quiesce"
 	"verif/harness/rec"
@@ -24,6 +26,38 @@ type twiceCase struct {
 	First  *drive.Case    `json:"first"`
 	Vars2  map[string]any `json:"vars2"`
 	Sched2 []int          `json:"sched2"`
+	// EditConds (programs without sub-processes): between the two instances
+	// the model is edited in code - the process gets a NEW slice of sequence
+	// flows in which every gateway / activity condition is negated - and the
+	// second instance must follow the edited model
+	EditConds bool `json:"editConds,omitempty"`
+}
+
+// negated returns a copy of the program in which the conditions of exclusive /
+// inclusive gateways and of conditional flows leaving activities are negated
+// (loop conditions stay: the plans decide how often a loop is taken).
+func negated(b *gen.Block) *gen.Block {
+	raw, _ := json.Marshal(b)
+	var c gen.Block
+	_ = json.Unmarshal(raw, &c)
+	var walk func(x *gen.Block)
+	walk = func(x *gen.Block) {
+		if x == nil {
+			return
+		}
+		if x.K == "xor" || x.K == "inc" || x.K == "ctask" {
+			for i, cond := range x.Conds {
+				if cond != nil {
+					x.Conds[i] = &gen.Cond{Op: "not", L: cond}
+				}
+			}
+		}
+		for _, k := range x.Kids {
+			walk(k)
+		}
+	}
+	walk(&c)
+	return &c
 }
 
 func runTwice(tc *twiceCase, pick1, pick2 func(int) int) (out *drive.Outcome, which string) {
@@ -53,6 +87,17 @@ func runTwice(tc *twiceCase, pick1, pick2 func(int) int) (out *drive.Outcome, wh
 	c2 := c1
 	c2.Vars = tc.Vars2
 	c2.Schedule = tc.Sched2
+	if tc.EditConds && defs != nil && len(*defs.Processes()) > 0 {
+		c2.Prog = negated(c1.Prog)
+		pb, _ := c2.BuildProgram()
+		defsB, err := schema.Parse([]byte(pb.XML()))
+		if err != nil || len(*defsB.Processes()) == 0 {
+			out.Inconcl = fmt.Sprintf("edited program does not parse: %v", err)
+			return out, "edit"
+		}
+		fresh := append([]schema.SequenceFlow(nil), *(*defsB.Processes())[0].SequenceFlows()...)
+		(*defs.Processes())[0].SetSequenceFlows(fresh)
+	}
 	out = drive.RunLockstep(&c2, pick2, hk)
 	tc.Sched2 = c2.Schedule
 	return out, "second instance (created from the same parsed model, other data)"
@@ -82,6 +127,7 @@ func TestC01Twice(t *testing.T) {
 	rapid.Check(t, func(rt *rapid.T) {
 		c := DrawCase(rt, o)
 		tc := &twiceCase{First: c, Vars2: map[string]any{}}
+		tc.EditConds = c.Prog.Features().Sub == 0 && rapid.IntRange(0, 2).Draw(rt, "editConds") == 0
 		differs := false
 		for k, v := range c.Vars {
 			switch x := v.(type) {
